@@ -907,6 +907,9 @@ impl Harness for WsSys {
         for (k, v) in fault::fired() {
             stats.fault(k, v);
         }
+        for (k, v) in aquatic_verif_rt::net::tcp::fired() {
+            stats.fault(k, v);
+        }
         stats.handoffs += report.handoffs;
         let dropped = glommio::sim_local_full_count();
         if dropped > 0 {
